@@ -34,6 +34,11 @@ def tasks(tier):
     for s0 in range(3):
         for mb in (1, 2):  # the machine has event-specific callbacks; a listener with only generic ones is attached later
             out.append({"engine": "sync", "rtc": True, "mix": 0, "s0": s0, "m_before": mb, "full": not quick, "late": True})
+    # "the outermost call returns the result of the first event": first event returns None, a queued one a value
+    for engine in ("sync", "async"):
+        for first in range(3):
+            out.append({"kind": "first-none", "engine": engine, "rtc": True, "allow": False, "s0": 0, "first": first, "values": "first_none",
+                        "calls": 1, "budget": 1, "listener": False, "drop": ["before_transition"], "send_events": ["go", "hop"]})
     if not quick:
         for mb in range(5):
             for s0 in range(3):
@@ -52,7 +57,7 @@ BOUNDS = {
     "thorough": "modes {none, generic, specific, inline, all}, provider mixes incl. listener-only and two listeners, also rtc=False.",
 }
 OUTSIDE = "more than one awkward value per event; values of other types (floats, objects); nested events (C03)"
-OBLIGATIONS = ["late-generic-listener", "result-none", "result-single", "result-list", "special-value-returned", "internal", "multi-event-second-id", "no-transition"]
+OBLIGATIONS = ["first-event-none-with-queued-result", "late-generic-listener", "result-none", "result-single", "result-list", "special-value-returned", "internal", "multi-event-second-id", "no-transition"]
 ASSUMPTIONS = [
     "result order inside the before group and inside the on group is free (the acceptor uses the observed order), before values precede on values",
     "values are compared by identity of kind and value: [] is not None, () is not [], 0 is not False",
@@ -60,6 +65,12 @@ ASSUMPTIONS = [
 
 
 def run(ctx, params):
+    if params.get("kind") == "first-none":
+        from harness import c03
+
+        c03.run_first_fixed(ctx, dict(params, events=[["go", "hop", "tick"][params["first"]]]))
+        ctx.cover("first-event-none-with-queued-result")
+        return
     pool = MODES_T if params["full"] else MODES_Q
     modes = {"before": pool[params["m_before"]], "on": pool[ctx.choose(len(pool), "mode.on")],
              "exit": "generic", "enter": "generic", "after": "generic"}
